@@ -167,10 +167,45 @@ class Module:
                 ch._parent = n
 
     def const(self, name):
-        """Folded value of a module-level constant; raises NotConst."""
+        """Value of a module-level constant; raises NotConst.  A literal is folded; a table that is built or completed
+        by statements (a comprehension, `dict([...])`, `TABLE[k] = v`, `TABLE.update(...)` after the literal) is
+        computed by interpreting the module's top-level statements (colls.module_constants)."""
         if name not in self.assigns:
             raise NotConst(name)
-        return fold(self.assigns[name], self)
+        if name not in self.mutated_names():
+            try:
+                return fold(self.assigns[name], self)
+            except NotConst:
+                pass
+        from .colls import module_constants
+
+        mc = module_constants(getattr(self, "prog", None), self)
+        if name in mc:
+            return mc[name]
+        raise NotConst(name)
+
+    def mutated_names(self):
+        """Module-level names that top-level statements change after (or instead of) binding them: subscript stores,
+        augmented assignments, deletions, method calls on them, more than one assignment."""
+        memo = getattr(self, "_mutated", None)
+        if memo is None:
+            memo, bound = set(), set()
+            for st in self.tree.body:
+                if isinstance(st, (ast.Assign, ast.AnnAssign, ast.AugAssign, ast.Delete)):
+                    tgts = st.targets if isinstance(st, (ast.Assign, ast.Delete)) else [st.target]
+                    for t in tgts:
+                        root = t
+                        while isinstance(root, (ast.Subscript, ast.Attribute)):
+                            root = root.value
+                        if not isinstance(root, ast.Name):
+                            continue
+                        if root is not t or isinstance(st, (ast.AugAssign, ast.Delete)) or root.id in bound:
+                            memo.add(root.id)
+                        bound.add(root.id)
+                elif isinstance(st, ast.Expr) and isinstance(st.value, ast.Call) and isinstance(st.value.func, ast.Attribute) and isinstance(st.value.func.value, ast.Name):
+                    memo.add(st.value.func.value.id)
+            self._mutated = memo
+        return memo
 
     def line(self, lineno):
         return self.lines[lineno - 1].strip() if 0 < lineno <= len(self.lines) else ""
@@ -230,7 +265,7 @@ def fold(node, module=None, env=None):
         if env is not None and node.id in env:
             return env[node.id]
         if module is not None and node.id in module.assigns:
-            return fold(module.assigns[node.id], module, None)
+            return module.const(node.id)
         if node.id in ("True", "False", "None"):
             return {"True": True, "False": False, "None": None}[node.id]
         raise NotConst(node.id)
@@ -265,6 +300,8 @@ class Program:
         for m in self.modules.values():
             for c in m.classes.values():
                 self.classes.setdefault(c.name, c)
+        for m_ in self.modules.values():
+            m_.prog = self
         self.send_helpers = {}
         self._normalise_send_helpers()
 
